@@ -4,6 +4,9 @@ import json, sys
 
 CLAIMED = {
  # id: (technique, level text, level note, design ref)
+ "C01": ("deterministic simulation: 2-3 scripted peers with identical numbering send generated datagrams over classifier x registered function x ack x destination x role concurrently (reader tasks interleaved, net.dup); the classifier table (DESIGN A.3) prescribes the multiset of replies/results, matched against the outbound traces of all connections",
+         "Seeded exploration of datagram sequences over {read, reply, notify, write, call, result} x every function the factory registers for randomly chosen feature types (harvested by reflection) x ackRequest absent/false/true x destination existing/unknown entity/unknown feature x role client/server/special, from several peers after a prefix of binds and data; per handled request the responses written during its handling (on any connection) must be exactly the prescribed ones, reference its counter, be addressed to its source and name the addressed local feature as source; read replies must carry the current data.",
+         "Sampling; trusted: instrumenter, synctest, the classifier table A.3 (calibrated row by row against the unchanged tree). Cases the statement leaves open (calls that answer with a reply, node-management side effects of discovery) are decided in C06/C08.", "5/C01"),
  "C03": ("deterministic simulation: scripted peers interleave bind/unbind/subscribe/write with conn.drop, conn.restart, peer.entity_remove and net.dup faults; reference binding registry decides per write whether it is authorised; data snapshots, outbound traces and events are the observables",
          "Seeded exploration of interleaved histories of bind, unbind, subscribe, write (from the bound feature, from another feature of the same peer, to read-only functions), disconnect/reconnect and entity removal by 2-3 peers with overlapping numbering against 2-6 local server features; for each delivered write the oracle requires, when unauthorised, unchanged data, no notification, no data-change event and exactly one error result, and when authorised, the data applied, one notify per current subscriber, one event and a success result iff ack.",
          "Sampling; trusted: instrumenter, synctest, registry model (A.5). Writes whose handling overlaps a registry change on their key, or other updates of the same function, are only checked for <=1 result.", "5/C03"),
